@@ -11,6 +11,9 @@ Decides (effect *signatures*, not numerical results):
   5 WHO-MAY   every counted instruction builds its loop through lift_loop; I is written only by it or as a destination
   6 SIBLING   HALT/OFF/RESET side effects on USR/SSR/UCR/ISR/SCR/LCC: Python intrinsics and the Rust core compute the same bit
               provenance for every internal register byte they touch
+  7 WIDTH     README operand ranges `(m..m+k)`: IL data access widths and the significant bits entering flag-setting operations
+  8 PACK      F = C | Z<<1 when stacked; unstacking restores C from bit 0 and Z from bit 1 only (bit provenance)
+  9 ADJUST    decimal-correction diamonds (>9 / +6 / pass through) test and adjust the same digit sum
 """
 from __future__ import annotations
 
